@@ -59,9 +59,9 @@ PROPS['C08'] = _board('C08', ['C08'],
 
 PROPS['C06'].update({
     'coq_targets': ['Properties/C06.vo', 'Impl/ImplBoard.vo'],
-    'obligation_files': ['Properties/C06.v', 'Impl/ImplBoard.v'],
+    'obligation_files': ['Properties/C06.v', 'Lemmas/QueriesLemmas.v', 'Impl/ImplBoard.v'],
     'level': 'proof',
-    'level_text': 'Proof: for every occupancy (lifting argument over the rotated bitboards, no enumeration of occupancies), every square and every target bit, Rook/Bishop/Queen attack boards computed by shift-mask-lookup on the tables dumped from the running code equal geometric ray walking (stop at and include the first occupied square); King/Knight tables and pawn capture boards equal their offset definitions; the incrementally xor-maintained rotated words stay in lockstep with the occupancy. The three lookup functions and the derived queries (attacked / check / checkmate) are tied to Go by the structured sweep and compared with the specification on generated positions. Derived-query theorems (is_attacked = Spec.attacked under the representation invariant) are being added with C02.',
+    'level_text': 'Proof: for every occupancy (lifting argument over the rotated bitboards, no enumeration of occupancies), every square and every target bit, Rook/Bishop/Queen attack boards computed by shift-mask-lookup on the tables dumped from the running code equal geometric ray walking (stop at and include the first occupied square); King/Knight tables and pawn capture boards equal their offset definitions; the incrementally xor-maintained rotated words stay in lockstep with the occupancy. The three lookup functions and the derived queries (attacked / check / checkmate) are tied to Go by the structured sweep and compared with the specification on generated positions. Derived queries under the representation invariant: is_attacked / is_checked = the specification s attacked / in_check, checkmate = in check and no legal move (with C01); FindCapture lists exactly the pieces of the colour that geometrically attack the square (find_capture_spec; order within a kind ascending; the reverse pawn-capture trick proved), FindPins reports exactly the (attacker, pinned, target) triples of the definition - first own piece seen from the target along a line, next piece beyond it an enemy queen or slider of the line s kind - and the x-ray word has at most one bit, so the reported attacker is the right one (find_pins_spec, candidate_one_bit).',
     'level_note': 'Trusted: Coq kernel (vm_compute for the 64x256 table sweeps, domain stated in the lemmas); the regenerated tables are values observed from the running code via the verif hook; Go array indexing/shift semantics as modelled in Model/Bits.v and Model/Attacks.v, exercised by the sweep. FindPins/FindCapture are covered by correspondence only so far.',
 })
 
@@ -232,6 +232,14 @@ PROPS['C18'].update({
 PROPS['C20'] = _board('C20', ['C20'],
     'every curated position as it stands (e.p. targets, castling rights, promotions, mates) and 120 (quick) / 3000 (thorough) short games (0-13 plies, biased to special moves) from the start, curated and random positions, each also set up colour-mirrored with mirrored moves; opening books: bundled books and books built with engine.NewBook from generated lines, queried on all positions of the lines, of transposing games (same placement, different e.p. status / castling rights) and of random playouts.',
     'Evaluations (eval.Material, TUROCHAMP Eval/Material, BERNSTEIN Eval with factors 20 and 0, SARGON Points also after every legal move) must not panic and must be finite; the first five must be equal on the mirrored game; FindPlausibleMoves returns only legal non-under-promotion moves, each once, non-empty when possible; the branch-limited selection picks only those, at most the limit, at least one; SkipUnderPromotions non-starving; IsConsiderableMove total on every legal move; depth-1 searches of the three historical engines do not panic; every book reply legal in the position it is returned for.')
+
+PROPS['C20'].update({
+    'coq_targets': ['Properties/C20.vo', 'Impl/ImplBoard.vo'],
+    'obligation_files': ['Properties/C20.v', 'Lemmas/EnginesLemmas.v', 'Lemmas/EnginesLemmas2.v', 'Lemmas/EnginesLemmas3.v', 'Lemmas/EnginesLemmas4.v', 'Impl/ImplBoard.v'],
+    'level': 'proof',
+    'level_text': 'Proof on the model of the three engines (Model/Engines.v, compared with the Go functions on every run: evaluation terms, the ordered plausible-move list and the considerable-move predicate equal on every generated position) for every legal position: generic material within +-567, TUROCHAMP material ratio defined with divisor in [1, 1280], BERNSTEIN evaluation >= 1 with bounded terms, so every division has an integer divisor >= 1 and bounded integer operands (finiteness); generic material, TUROCHAMP material and BERNSTEIN material / control / king-defence terms are invariant under the colour mirror (attack queries commute with the mirror at bit level); no-under-promotion, plausible-move (any static-exchange predicate, any limit) and considerable-move filters select only legal moves, each once, within the limit, the two main-search filters at least one when a legal move exists, the considerable predicate is total on legal moves (en passant never reads a NoPiece value); every reply stored by engine.NewBook is legal in a position with its key, the BERNSTEIN book is {start: e2e4}, all 21 SARGON book entries are legal replies in legal positions. Implementation monitors on curated, cramped, queen-star, pin-line and random positions, each also colour-mirrored.',
+    'level_note': 'Partial in two respects: (1) the float32 steps after the integer skeleton (conversion, division, Round, Sqrt of a count) are not modelled - finiteness is proved for the integer operands and divisors only, and the SARGON Points evaluation is covered by monitors only; (2) colour-blindness of the BERNSTEIN mobility term (number of legal moves commutes with the mirror for BOTH colours) is stated (mirror_mobility_statement) and checked by computation on 13 positions but not proved - the full BERNSTEIN evaluation is colour-blind under that statement. Trusted: Coq kernel, extraction, harness.',
+})
 
 for _p in WIDEN_THOROUGH:
     if _p in PROPS:
